@@ -272,24 +272,40 @@ def build(spec, d, fmt, use_uuid, indent=None):
 
 
 def plant(b, spec, kind, pos):
-    """Plant one unserialisable element at position pos."""
+    """Plant one unserialisable element at position pos; returns the function that repairs the model."""
     if spec['kind'] == 'ecore':
-        b.annots[pos].details['planted'] = 3 if kind == 'annotation-detail-int' else Opaque()
-        return
+        an = b.annots[pos]
+        an.details['planted'] = 3 if kind == 'annotation-detail-int' else Opaque()
+        return lambda: an.details.pop('planted')
     x = b.universe[pos]
     if kind == 'tostring-raises':
         x.bad = Opaque()
-    elif kind == 'tostring-nonstring':
+        return lambda: setattr(x, 'bad', None)
+    if kind == 'tostring-nonstring':
         x.badns = Opaque()
-    else:
-        orphan = b.mm['Orphan'](name='orphan')
-        b.universe.append(orphan)
-        if kind == 'orphan-child':
-            x.kids.append(orphan)
-        elif kind == 'orphan-ref':
-            x.peer = orphan
-        elif kind == 'orphan-root':
-            b.res.append(orphan)            # one more root, next to root x
+        return lambda: setattr(x, 'badns', None)
+    orphan = b.mm['Orphan'](name='orphan')
+    b.universe.append(orphan)
+    if kind == 'orphan-child':
+        x.kids.append(orphan)
+
+        def undo():
+            x.kids.remove(orphan)
+            b.universe.remove(orphan)
+    elif kind == 'orphan-ref':
+        previous = x.peer
+        x.peer = orphan
+
+        def undo():
+            x.peer = previous
+            b.universe.remove(orphan)
+    else:   # orphan-root: one more root, next to root x
+        b.res.append(orphan)
+
+        def undo():
+            b.res.remove(orphan)
+            b.universe.remove(orphan)
+    return undo
 
 
 # ----------------------------------------------------------------------------
@@ -520,6 +536,141 @@ def check_fault(out, model, spec, fmt, opts, kind, pos, old, stats, scratch):
                                      'target_after': None if after is None else len(after)})
 
 
+def check_histories(out, spec, fmt, opts, rng, stats, scratch):
+    """Idempotence on resources with a HISTORY (the bytes of a save must depend on the model only):
+      after-failed-save:<kind>  a save that raised, the model repaired, then two saves; compared with each
+                                other and with a twin model (same planting and repair, no failed save)
+      after-load[+extra-ns]     two resources loaded from the same document (optionally declaring a
+                                namespace the saver does not need): save, save again, save the other one
+      after-output-save         a save to another output=, then two saves to the resource's own URI"""
+    from pyecore.resources import ResourceSet, URI
+    from pyecore.resources.json import JsonResource
+    uu = opts['use_uuid']
+
+    def record(name, ok):
+        stats['history'][name] = stats['history'].get(name, 0) + 1
+        if not ok:
+            stats['history_skipped'][name] = stats['history_skipped'].get(name, 0) + 1
+
+    def fail(fault, what, extra):
+        out.fail(sig('idempotence', fmt, fault), what,
+                 {'spec': spec, 'format': fmt, 'options': opts, 'history': extra})
+    # --- (i) failed save, repair, save, save
+    with tempfile.TemporaryDirectory(dir=scratch) as d:
+        b0 = build(spec, d, fmt, False)
+        npos, roots = len(b0.positions), [b0.positions.index(r) for r in b0.root_positions]
+    kinds = INSTANCE_FAULTS if spec['kind'] == 'instance' else ECORE_FAULTS
+    for kind in kinds:
+        cands = roots if kind == 'orphan-root' else list(range(npos))
+        if not cands or PHASE[(fmt, kind)] is None:
+            continue
+        pos = rng.choice(cands)
+        upos = (lambda b: b.positions[pos]) if spec['kind'] == 'instance' else (lambda b: pos)
+        name = 'after-failed-save:' + kind
+        extra = {'scenario': 'failed-save-then-repair', 'kind': kind, 'position': pos}
+        with tempfile.TemporaryDirectory(dir=scratch) as da, tempfile.TemporaryDirectory(dir=scratch) as db:
+            a = build(spec, da, fmt, uu, opts.get('indent'))
+            plant(a, spec, kind, upos(a))()
+            ea = do_save(a, fmt, opts)
+            ref = read(a.path)
+            b = build(spec, db, fmt, uu, opts.get('indent'))
+            undo = plant(b, spec, kind, upos(b))
+            e0 = do_save(b, fmt, opts)
+            undo()
+            e1 = do_save(b, fmt, opts)
+            b1 = read(b.path)
+            e2 = do_save(b, fmt, opts)
+            b2 = read(b.path)
+            stats['saves'] += 4
+            ok = e0 is not None and not (ea or e1 or e2)
+            record(name, ok)
+            if not ok:
+                continue
+            stats['distinct'].add(_h([spec, fmt, opts, extra]))
+            if b1 != b2:
+                fail(name, f'after a save that raised ({e0}) and the repair of the model, two consecutive saves '
+                     f'wrote different bytes: {_firstdiff(b1, b2)}', extra)
+            elif not uu and b1 != ref:
+                fail(name, f'after a save that raised ({e0}) and the repair of the model, save wrote other bytes than '
+                     f'the same model without the failed save: {_firstdiff(b1, ref)}', extra)
+    # --- (ii) loaded resources
+    with tempfile.TemporaryDirectory(dir=scratch) as d:
+        f = build(spec, d, fmt, uu, opts.get('indent'))
+        if spec['kind'] == 'instance' and f.ext.contents:
+            try:
+                f.ext.save()
+            except Exception:       # noqa: the cross-referenced document is only there for completeness
+                pass
+        e = do_save(f, fmt, opts)
+        doc = read(f.path)
+        stats['saves'] += 1
+        variants = [('after-load', doc)] if not e else []
+        if not e and fmt == 'xmi':
+            k = doc.find(b' xmlns:')
+            if k > 0:
+                variants.append(('after-load+extra-ns',
+                                 doc[:k] + b' xmlns:notes="http://verif/c16/notes" xmlns:xsi="http://www.w3.org/2001/'
+                                           b'XMLSchema-instance"' + (doc[k:].replace(b' xmlns:xsi="http://www.w3.org/2001/'
+                                                                                     b'XMLSchema-instance"', b'', 1))))
+        for name, data in variants:
+            path = os.path.join(d, 'loaded.' + fmt)
+            with open(path, 'wb') as fh:
+                fh.write(data)
+            loaded = []
+            try:
+                for _ in range(2):
+                    rs = ResourceSet()
+                    rs.resource_factory['json'] = lambda uri, **kw: JsonResource(uri, indent=opts.get('indent'), **kw)
+                    if spec['kind'] == 'instance':
+                        rs.metamodel_registry[f.mm['pk'].nsURI] = f.mm['pk']
+                    loaded.append(rs.get_resource(URI(path)))
+            except Exception:
+                record(name, False)         # loading is C08/C09/C18's business
+                continue
+            outs = []
+            errs = []
+            for r in (loaded[0], loaded[0], loaded[1]):
+                try:
+                    r.save(options=save_options(fmt, opts))
+                    errs.append(None)
+                except Exception as ex:     # noqa
+                    errs.append(type(ex).__name__)
+                outs.append(read(path))
+            stats['saves'] += 3
+            ok = not any(errs)
+            record(name, ok)
+            if not ok:
+                continue
+            extra = {'scenario': name, 'document': data.decode('utf-8', 'replace')}
+            stats['distinct'].add(_h([spec, fmt, opts, name]))
+            if outs[0] != outs[1]:
+                fail(name, 'two consecutive saves of a resource obtained by load() wrote different bytes: '
+                     + _firstdiff(outs[0], outs[1]), extra)
+            elif not uu and outs[0] != outs[2]:
+                # (in uuid mode objects without id get fresh random ids: two resources legitimately differ)
+                fail(name, 'two resources loaded from the same document saved different bytes (the second one after '
+                     'the first had been saved twice): ' + _firstdiff(outs[0], outs[2]), extra)
+    # --- (iii) a save elsewhere first
+    with tempfile.TemporaryDirectory(dir=scratch) as d:
+        b = build(spec, d, fmt, uu, opts.get('indent'))
+        other = os.path.join(d, 'elsewhere.' + fmt)
+        e0 = do_save(b, fmt, opts, other)
+        bo = read(other)
+        e1 = do_save(b, fmt, opts)
+        b1 = read(b.path)
+        e2 = do_save(b, fmt, opts)
+        b2 = read(b.path)
+        stats['saves'] += 3
+        ok = not (e0 or e1 or e2)
+        record('after-output-save', ok)
+        if ok:
+            extra = {'scenario': 'after-output-save'}
+            stats['distinct'].add(_h([spec, fmt, opts, 'after-output-save']))
+            if b1 != b2 or b1 != bo:
+                fail('after-output-save', 'a save to another output= followed by two saves to the own URI wrote '
+                     'different bytes: ' + _firstdiff(b1, b2 if b1 != b2 else bo), extra)
+
+
 def option_grid(fmt, thorough):
     grid = []
     for uu in (False, True):
@@ -547,13 +698,15 @@ def run(ctx, out):
     model = common.Model()
     stats = {'saves': 0, 'ok_saves_checked': 0, 'failing_saves_checked': 0, 'unsavable': 0, 'unsavable_examples': [],
              'faults': {}, 'fault_outcomes': {}, 'model_calls': 0, 'distinct': set(), 'samples': [],
-             'sizes': {}, 'kinds': {'instance': 0, 'ecore': 0}}
-    n_inst, n_ecore, nmax = (16, 6, 7) if not thorough else (60, 20, 9)
+             'sizes': {}, 'kinds': {'instance': 0, 'ecore': 0}, 'history': {}, 'history_skipped': {}}
+    n_inst, n_ecore, nmax = (12, 5, 7) if not thorough else (50, 16, 9)
     budget = time.time() + (40 if not thorough else 480)
     specs = [gen_instance_spec(rng, nmax) for _ in range(n_inst)] + [gen_ecore_spec(rng, nmax) for _ in range(n_ecore)]
     # smallest models first: the first failure reported is a small one
     specs.sort(key=lambda s: len(s.get('objs', s.get('classes'))))
     cut = False
+    # first the successful half on every model (purity, idempotence, idempotence on resources with a
+    # history), then the time-boxed fault enumeration
     for si, spec in enumerate(specs):
         stats['kinds'][spec['kind']] += 1
         size = len(spec['objs']) if spec['kind'] == 'instance' else count_annots(spec)
@@ -562,6 +715,12 @@ def run(ctx, out):
             grid = option_grid(fmt, thorough)
             for opts in grid:
                 check_success(out, model, spec, fmt, opts, stats, scratch)
+            for opts in (grid if thorough else [grid[si % 4], grid[(si + 2) % 4]]):
+                if opts['target'] == 'uri':
+                    check_histories(out, spec, fmt, opts, rng, stats, scratch)
+    for si, spec in enumerate(specs):
+        for fmt in ('xmi', 'json'):
+            grid = option_grid(fmt, thorough)
             # failure half: every position x every fault kind; options rotate over the grid
             # (thorough: the whole grid at every position)
             with tempfile.TemporaryDirectory(dir=scratch) as d:
@@ -599,6 +758,8 @@ def run(ctx, out):
         'failing_saves_compared(failsafe)': stats['failing_saves_checked'],
         'faults_by_kind': stats['faults'], 'fault_outcomes': stats['fault_outcomes'],
         'models_by_kind': stats['kinds'], 'model_sizes(objects or annotations)': stats['sizes'],
+        'history_scenarios(idempotence on resources with a past)': stats['history'],
+        'history_scenarios_not_comparable(load or repaired save raised)': stats['history_skipped'],
         'generated_models_not_savable': stats['unsavable'],
         'generated_models_not_savable_examples': stats['unsavable_examples'][:3],
         'cut_by_time_budget': cut,
